@@ -170,7 +170,7 @@ Definition s2n_cond (e : epoch) (acc : list vote) (blocks : list (blockid * bloc
   let ns := notar_stake_of e acc (fst b) (snd b) in
   own_voted_other e acc (fst b) (snd b)
   && (is_weak_quorum e ns || (is_weakest_quorum e ns && is_quorum e (ns + skip_stake_of e acc (fst b))))
-  && existsb (fun bp => bid_eqb (fst bp) b && parent_certified certs (snd bp)) blocks.
+  && existsb (fun bp => bid_eqb (fst bp) b && (bid_eqb (snd bp) (0, 0) || parent_certified certs (snd bp))) blocks.
 Definition top_notar_of (e : epoch) (acc : list vote) (s : slot) : N :=
   fold_right N.max 0 (map (notar_stake_of e acc s) (hashes_of_votes acc s)).
 Definition nos_of (e : epoch) (acc : list vote) (s : slot) : N :=
@@ -252,7 +252,13 @@ Definition c06_step_ok (e : epoch) (hist : list pstep) (st : pstep) : bool :=
   let in_bounds s := (ob_first_unpruned (sp_obs st) <=? s) && negb (spec_decided certs blocks s) in
   let complete :=
     forallb (fun bp => let b := fst bp in
-                       negb (in_bounds (fst b)) || negb (s2n_cond e acc blocks certs b) || ev_s2n (now ++ before) b) blocks
+                       negb (in_bounds (fst b)) || negb (s2n_cond e acc blocks certs b) || ev_s2n (now ++ before) b
+                       (* "a certificate the node holds": certificates of pruned slots are gone, a block registered
+                          after its parent's slot was pruned cannot be signalled (it skips a finalized slot anyway) *)
+                       || negb (existsb (fun bp' => bid_eqb (fst bp') b
+                                                    && (bid_eqb (snd bp') (0, 0)
+                                                        || (parent_certified certs (snd bp')
+                                                            && (ob_first_unpruned (sp_obs st) <=? fst (snd bp'))))) blocks)) blocks
     && forallb (fun s => negb (in_bounds s) || negb (s2s_cond e acc s) || ev_s2s (now ++ before) s)
                (fold_right sset_insert [] (map v_slot acc)) in
   sound && complete.
